@@ -312,6 +312,58 @@ example : utf8Decode [0xC3] = none ∧ utf8Decode [0xE2, 0x82] = none ∧ utf8De
     utf8Decode [0x61, 0xBF] = none ∧ utf8Decode [0xF5, 0x80, 0x80, 0x80] = none ∧ utf8Decode [0xFF] = none ∧
     utf8Decode [0xC3, 0x41] = none ∧ utf8Decode [0xED, 0x9F, 0xBF] = some [Char.ofNat 0xD7FF] ∧
     utf8Decode [0xEE, 0x80, 0x80] = some [Char.ofNat 0xE000] := by decide +kernel
+
+/-- **The decoder accepts exactly the encodings.**  `from_utf8(bs) = Ok(s)` if and only if `bs` is `s.as_bytes()`: besides
+    `C11_utf8_roundtrip` (the "if"), nothing else is accepted — no overlong form, no surrogate, nothing above 10FFFF, no
+    truncated form, no stray continuation byte decodes to any text.  So the text a caller reads back from a destination is
+    determined by the bytes, and equal bytes mean equal texts. -/
+theorem C11_utf8_decode_iff (bs : List UInt8) (s : List Char) : utf8Decode bs = some s ↔ bs = utf8Encode s :=
+  autf_decode_iff bs s
+
+/-- different texts have different bytes -/
+theorem C11_utf8_encode_injective (s t : List Char) (h : utf8Encode s = utf8Encode t) : s = t := by
+  have := C11_utf8_roundtrip s
+  rw [h, C11_utf8_roundtrip] at this
+  exact (Option.some.inj this).symm
+
+/-- **Whatever bytes parse, re-written bytes parse to the same.**  Start from ANY byte string a caller has (a file read
+    from disk): if it is valid UTF-8 and its text parses to `c`, then the bytes `aisle::write` produces for `c` are valid
+    UTF-8 and their text parses to `c` again. -/
+theorem C11_roundtrip_from_bytes (bs : List UInt8) (s : List Char) (c : Conf) (hd : utf8Decode bs = some s)
+    (hp : parse s = .ok c) :
+    bs = utf8Encode s ∧ ∃ s', utf8Decode (utf8Encode (write c)) = some s' ∧ parse s' = .ok c :=
+  ⟨(C11_utf8_decode_iff bs s).mp hd, C11_roundtrip_bytes s c hp⟩
+
+/-- **Spans are offsets into the bytes.**  The model measures positions with `utf8Len` (sum of `char::len_utf8`); this is
+    the length of the encoding, and the span of an occurrence of a text (`SpanOf`, what `C11_error_faithful` gives for every
+    span of every error) cuts exactly the encoding of that text out of the input's bytes: `&input.as_bytes()[span]` is
+    `text.as_bytes()`. -/
+theorem C11_span_bytes (input : List Char) :
+    (utf8Encode input).length = utf8Len input ∧
+    ∀ sp text, SpanOf input sp text →
+      ((utf8Encode input).drop sp.start).take (sp.stop - sp.start) = utf8Encode text :=
+  ⟨autf_length_encode input, fun sp text h => autf_spanOf_bytes input sp text h⟩
+
+/-- … for the duplicate errors: both spans of the error, taken as byte ranges of the input's bytes, hold the encoded
+    duplicated name. -/
+theorem C11_duplicate_spans_bytes (s : List Char) (n : List Char) (a b : Span)
+    (h : parse s = .error (.duplicateIngredient n a b) ∨ parse s = .error (.duplicateCategory n a b)) :
+    ((utf8Encode s).drop a.start).take (a.stop - a.start) = utf8Encode n ∧
+    ((utf8Encode s).drop b.start).take (b.stop - b.start) = utf8Encode n := by
+  rcases h with h | h
+  all_goals
+    have := C11_error_faithful s _ h
+    exact ⟨(C11_span_bytes s).2 a n this.1, (C11_span_bytes s).2 b n this.2⟩
+
+/-- non-vacuity: "[a]\né€|x\nb|é€" — the duplicated name `é€` (5 bytes) is reported at bytes 4..9 and 14..19 of the
+    19-byte input, and those byte ranges are C3 A9 E2 82 AC -/
+example : parse ['[','a',']','\n','é','€','|','x','\n','b','|','é','€'] =
+      .error (.duplicateIngredient ['é','€'] ⟨4, 9⟩ ⟨14, 19⟩) ∧
+    ((utf8Encode ['[','a',']','\n','é','€','|','x','\n','b','|','é','€']).drop 14).take 5 = [0xC3, 0xA9, 0xE2, 0x82, 0xAC] ∧
+    ((utf8Encode ['[','a',']','\n','é','€','|','x','\n','b','|','é','€']).drop 4).take 5 = [0xC3, 0xA9, 0xE2, 0x82, 0xAC] ∧
+    utf8Decode [0x5B, 0xC3, 0xA9, 0x5D] = some ['[','é',']'] ∧
+    (parse ['[','é',']']).toOption.map (fun c => utf8Encode (write c)) = some [0x5B, 0xC3, 0xA9, 0x5D, 0x0A, 0x0A] := by
+  decide +kernel
 -- ===== end w10c11utf8 =====
 
 end Cook
